@@ -18,6 +18,7 @@ Inductive ev :=
 (** [scan_last i l]: is l the last line member i's scan part denotes (CsvPath.completed) *)
 Section Abort.
   Variable scan_last : nat -> Z -> bool.
+  Variable finished : nat -> Z -> bool.   (* breadth-first: member j's scan ended on a line before l (it stopped there; its line monitor stays there) *)
   Variable n : nat.                  (* members in the group *)
 
   (** serial methods: members 0..i-1 finish and are saved; member i aborts on line l *)
@@ -26,10 +27,12 @@ Section Abort.
     ++ [MemberStarted i; ErrorCollected i l; MemberSaved i (scan_last i l); Raised].
 
   (** breadth-first: every member has started; member i aborts on line l; all are saved.
-      Members before i in the list have already looked at line l, those after it are still on line l-1. *)
+      Members before i in the list have already looked at line l, those after it are still on line l-1; a member whose scan
+      ended on an earlier line stopped there and is recorded as completed. *)
   Definition byline_abort (i : nat) (l : Z) : list ev :=
     StartRun :: map MemberStarted (seq 0 n) ++ [ErrorCollected i l]
-    ++ map (fun j => MemberSaved j (scan_last j (if Nat.leb j i then l else l - 1))) (seq 0 n) ++ [Raised].
+    ++ map (fun j => let cur := if Nat.leb j i then l else l - 1 in
+                    MemberSaved j (if finished j cur then true else scan_last j cur)) (seq 0 n) ++ [Raised].
 
   Definition status_complete (t : list ev) : bool := existsb (fun e => match e with CompleteRun => true | _ => false end) t.
   Definition raised (t : list ev) : bool := existsb (fun e => match e with Raised => true | _ => false end) t.
